@@ -194,3 +194,63 @@ def make_client(credentials, handle, **kwargs):
 
 def exc_name(exc):
     return type(exc).__name__ if exc is not None else None
+
+
+# ---------------------------------------------------------------------------
+# SNMPv3 helpers
+# ---------------------------------------------------------------------------
+
+V3_LEVELS = ("noAuthNoPriv", "authNoPriv", "authPriv")
+
+
+def v3_user(level, method="md5", priv="vstream", name=b"alice", auth_pw=b"authpass-alice", priv_pw=b"privpass-alice"):
+    """-> (reference User, puresnmp V3 credentials)"""
+    from puresnmp.credentials import V3, Auth, Priv
+
+    from .ref import usm
+
+    if level == "noAuthNoPriv":
+        return usm.User(name), V3(name.decode("ascii"))
+    if level == "authNoPriv":
+        return usm.User(name, (method, auth_pw)), V3(name.decode("ascii"), Auth(auth_pw, method))
+    if level == "authPriv":
+        return (
+            usm.User(name, (method, auth_pw), (priv, priv_pw)),
+            V3(name.decode("ascii"), Auth(auth_pw, method), Priv(priv_pw, priv)),
+        )
+    raise HarnessError(level)
+
+
+def reset_plugins():
+    from .ref import usm
+
+    for name in ("vstream", "vblock", "vrecord"):
+        mod = sys.modules.get("puresnmp_plugins.priv." + name)
+        if mod is not None:
+            mod.reset()
+        if name in usm._PLUGINS:
+            usm._PLUGINS[name].reset()
+
+
+def make_v3(db, level, method="md5", priv="vstream", **agent_kw):
+    """-> (client, sender, agent): real client wired to a reference v3 agent
+    on the shared virtual clock"""
+    from .ref import agent as ragent
+
+    user, creds = v3_user(level, method, priv)
+    ag = ragent.V3Agent(db, [user], clock=lambda: clock.CLOCK.now, **agent_kw)
+    client, sender = make_client(creds, ag.handle)
+    return client, sender, ag
+
+
+def v3_auth_facts(facts, exc, agent):
+    """When a call ended with AuthenticationError, record (from the reference
+    side only) whether the last authentic response of the agent is one whose
+    parse/re-serialise round trip changes the bytes (known finding)."""
+    if type(exc).__name__ != "AuthenticationError":
+        return
+    from .ref import snmp
+
+    sent = [e for e in agent.log if e.get("verdict") == "ok" and "sent" in e]
+    if sent:
+        facts["authentic_response_reserialisation_differs"] = snmp.reserialisation_differs(sent[-1]["sent"])
